@@ -57,6 +57,9 @@ var c13Tails = map[string][]badTail{
 		{"size-2^62", "4611686018427387904 /uri\nabc\n", true},
 		{"size-2GB", "2000000000 /uri\nabc\n", true},
 		{"body-truncated", "10 /uri tag\nshort", true},
+		{"body-missing", "7 /uri tag\n", true},
+		{"body-missing-no-newline", "7 /uri tag", true},
+		{"body-one-byte-short", "6 /uri tag\nshort", true},
 		{"header-unterminated", "[Broken\n3 /uri\nabc\n", true},
 		{"url-bad-escape", "0 /bad%zz\n", true},
 	},
@@ -67,6 +70,8 @@ var c13Tails = map[string][]badTail{
 		{"size-2^62", "4611686018427387904 t\nGET / HTTP/1.1\r\n\r\n", true},
 		{"size-2GB", "2000000000 t\nGET / HTTP/1.1\r\n\r\n", true},
 		{"request-truncated", "99999 tag\nGET / HTTP/1.1\r\nHost: x\r\n\r\n", true},
+		{"request-missing", "42 tag\n", true},
+		{"request-missing-no-newline", "42 tag", true},
 		{"size-float", "12.5 tag\nGET / HTTP/1.1\r\n\r\n", true},
 	},
 	"json": {
@@ -337,6 +342,9 @@ var c13ScDefects = []scDefect{
 	{"sleep-not-a-number", map[string]string{"requests": "auth_req(1, y)"}, nil, true},
 	{"count-negative", map[string]string{"requests": "auth_req(-3)|list_req(1)"}, nil, false},
 	{"count-zero", map[string]string{"requests": "auth_req(0)"}, nil, false},
+	{"zero-count-then-sleep", map[string]string{"requests": "auth_req(0)|sleep(100)|list_req(1)"}, nil, true},
+	{"negative-count-then-sleep", map[string]string{"requests": "auth_req(-2)|sleep(5)|list_req(1)"}, nil, true},
+	{"sleep-between-zero-counts", map[string]string{"requests": "list_req(1)|auth_req(0)|sleep(7)|auth_req(0, 5)"}, nil, false},
 	{"empty-args", map[string]string{"requests": "auth_req()|list_req(,)"}, nil, false},
 	{"empty-name", map[string]string{"requests": "(1)"}, nil, true},
 	{"text-after-paren", map[string]string{"requests": "auth_req(1) extra"}, nil, true},
